@@ -80,9 +80,9 @@ func impl(in hv.Val) hv.Val {
 	}
 	root := "/" + strings.Join(parts, "/")
 	ae := hv.AsStr(l[2])
-	st, body, cl, ce := mod_static.VerifServe(hv.AsStr(l[0]), hv.AsStr(l[1]), ae, ae != "", root, hv.AsStr(l[4]),
-		hv.AsInt(l[5]) != 0)
-	return hv.L{hv.I(st), hv.B(body), hv.S(cl), hv.S(ce)}
+	st, body, cl, ce, cnt := mod_static.VerifServe(int(hv.AsInt(l[7])), hv.AsStr(l[0]), hv.AsStr(l[1]), ae, ae != "", root,
+		hv.AsStr(l[4]), hv.AsInt(l[5]) != 0)
+	return hv.L{hv.I(st), hv.B(body), hv.S(cl), hv.S(ce), hv.L{hv.Z(cnt[0]), hv.Z(cnt[1]), hv.Z(cnt[2])}}
 }
 
 var longName = strings.Repeat("L", 255)
@@ -311,9 +311,14 @@ func gen(r *hv.Rng, i int, tier string) (string, hv.Val) {
 			"../../../secret.txt", "./sub/../a.txt"})
 		class += "+def"
 	}
-	return class, hv.L{hv.S(method), hv.S(target), hv.S(ae), t.rootVal, hv.S(def), hv.Bool(compress), t.val}
+	route := 0
+	if r.Chance(1, 25) {
+		route = r.Range(1, 2)
+		class = "route"
+	}
+	return class, hv.L{hv.S(method), hv.S(target), hv.S(ae), t.rootVal, hv.S(def), hv.Bool(compress), t.val, hv.I(route)}
 }
 
 func main() {
-	hv.Main(&hv.Spec{Prop: "C50", Gen: gen, Impl: impl, NQuick: 6000, NThorough: 300000})
+	hv.Main(&hv.Spec{Prop: "C50", Gen: gen, Impl: impl, NQuick: 4000, NThorough: 300000})
 }
